@@ -72,5 +72,5 @@ def run(tier, seed):
         "C20", tier, seed, builders,
         "random histories over two datasets: additions (duplicates, negatives, unsorted arrival), bursts, merges in both directions and self-merges, queries interleaved everywhere; "
         "q in {k/(n-1) and its float neighbours, 0, 1, -0, 1/2, random, just outside [0,1], +-Inf, NaN}; oracle: exact order statistics of the python-sorted values at floor/ceil of the "
-        "float rank (asserted to be adjacent to the exact rational rank), exact min/max/count, sum within 4*2^-53*sum|x|. distinct_nontrivial = distinct histories with a query after a later addition",
+        "float rank (asserted to be adjacent to the exact rational rank), exact min/max/count, sum within 9*2^-53*sum|x| (the constant of the proved bound, Props/Kahan.v). distinct_nontrivial = distinct histories with a query after a later addition",
         nontrivial=lambda b, impl: any(l.startswith(("dlo", "dhi", "dq")) for l in b.lines))
